@@ -82,6 +82,7 @@ structure Circuit where
   -- ghosts
   released    : Nat := 0            -- trial slots given back in the current episode
   ownSucc     : Nat := 0            -- successes of trials admitted in the current episode
+  hist        : List Rec := []      -- every outcome recorded since the window was last emptied
 deriving Repr
 
 /-- `f/n ≥ num/den` -/
@@ -96,7 +97,7 @@ def stats (cfg : Cfg) (c : Circuit) : Nat × Nat × Nat × Nat :=
   else (c.recs.length, countFail c.recs, c.recs.length - countFail c.recs, countSlow c.recs)
 
 def clearWindow (c : Circuit) : Circuit :=
-  { c with cwin := [], recs := [], failN := 0, succN := 0, totalN := 0, slowN := 0 }
+  { c with cwin := [], recs := [], failN := 0, succN := 0, totalN := 0, slowN := 0, hist := [] }
 
 /-- `transition_to`: no-op (and no event) when the state does not change -/
 def transitionTo (c : Circuit) (s : St) (now : Nat) : Circuit × List CEv :=
@@ -131,20 +132,22 @@ def pushCount (cfg : Cfg) (c : Circuit) (r : Rec) : Circuit :=
   if c.cwin.length > max cfg.size 1 then evictOne c else c
 
 def pushOutcome (cfg : Cfg) (c : Circuit) (r : Rec) (now : Nat) : Circuit :=
-  if cfg.countBased then pushCount cfg c r
+  if cfg.countBased then { pushCount cfg c r with hist := c.hist ++ [r] }
   else
     let c := cleanup cfg c now
-    { c with recs := c.recs ++ [r] }
+    { c with recs := c.recs ++ [r], hist := c.hist ++ [r] }
 
 def shouldOpen (cfg : Cfg) (total fail slow : Nat) : Bool :=
   decide (total ≥ cfg.minCalls) && (!cfg.countBased || decide (total ≥ cfg.size)) &&
     (reached fail total cfg.frNum cfg.frDen || (cfg.slowMs.isSome && reached slow total cfg.srNum cfg.srDen))
 
 /-- `evaluate_window` -/
-def evaluate (cfg : Cfg) (c : Circuit) (now : Nat) : Circuit × List CEv :=
-  let c := if cfg.countBased then c else cleanup cfg c now
+def evalOn (cfg : Cfg) (c : Circuit) (now : Nat) : Circuit × List CEv :=
   let (total, fail, _, slow) := stats cfg c
   if shouldOpen cfg total fail slow then transitionTo c .opened now else (c, [])
+
+def evaluate (cfg : Cfg) (c : Circuit) (now : Nat) : Circuit × List CEv :=
+  evalOn cfg (if cfg.countBased then c else cleanup cfg c now) now
 
 def isSlow (cfg : Cfg) (dur : Nat) : Bool :=
   match cfg.slowMs with
@@ -168,8 +171,7 @@ def tryAcquire (cfg : Cfg) (c : Circuit) (now : Nat) : Circuit × Bool × List C
   | .closed => (c, true, [])
   | .opened =>
       if now - c.lastChange ≥ cfg.waitMs then
-        let (c', evs) := transitionTo c .halfOpen now
-        ({ c' with hoAdmitted := 1 }, true, evs)
+        ({ (transitionTo c .halfOpen now).1 with hoAdmitted := 1 }, true, (transitionTo c .halfOpen now).2)
       else (c, false, [])
   | .halfOpen =>
       if c.hoAdmitted < cfg.permitted then ({ c with hoAdmitted := c.hoAdmitted + 1 }, true, [])
@@ -185,8 +187,7 @@ def releaseTrial (c : Circuit) (ep : Option Nat) : Circuit :=
   | none => c
 
 def reset (c : Circuit) (now : Nat) : Circuit × List CEv :=
-  let (c', evs) := transitionTo c .closed now
-  (clearWindow c', evs)
+  (clearWindow (transitionTo c .closed now).1, (transitionTo c .closed now).2)
 
 /-! ## callers -/
 
@@ -213,7 +214,7 @@ structure State where
   running : List Caller := []
   seen    : List Nat := []
   serial  : Nat := 0
-  log     : List CEv := []
+  log     : List (Nat × CEv) := []   -- ghost: every event so far, with its instant
 deriving Repr
 
 inductive Op
@@ -237,7 +238,7 @@ def classify (cfg : Cfg) (o : Out) (tag : Nat) : Bool :=
   | _, .ok => decide (tag % 2 = 1)
   | _, _ => false
 
-def emit (s : State) (evs : List CEv) : State := { s with log := s.log ++ evs }
+def emit (s : State) (evs : List CEv) : State := { s with log := s.log ++ evs.map (fun e => (s.now, e)) }
 
 def findFresh (l : List Fresh) (c : Nat) : Option Fresh := l.find? (·.c == c)
 def findRunning (l : List Caller) (c : Nat) : Option Caller := l.find? (·.c == c)
@@ -248,36 +249,48 @@ def resOf (k : Nat) : Out → Res
   | .panic => .panic
   | .never => .panic
 
-/-- the inner future of a running caller is polled -/
-def pollRunning (cfg : Cfg) (s : State) (r : Caller) : State :=
-  if s.now ≥ r.doneAt ∧ r.out ≠ .never then
-    let s := { s with running := s.running.filter (·.c != r.c) }
-    match r.out with
-    | .panic =>
-        -- the panic unwinds through the call future; its `TrialGuard` gives the slot back
-        let s := emit s [.innerDone r.c r.k .panic, .result r.c .panic]
-        { s with circ := releaseTrial s.circ r.ep }
-    | o =>
-        let own := decide (r.ep = some s.circ.episode ∧ s.circ.st = .halfOpen)
-        let (circ, evs) := record cfg s.circ (classify cfg o r.tag) (s.now - r.start) s.now own
-        emit { s with circ := circ } ([.innerDone r.c r.k o] ++ evs ++ [.result r.c (resOf r.k o)])
-  else s
+/-- completion of the inner call of running caller `r` (the caller has already left `running`) -/
+def complete (cfg : Cfg) (s : State) (r : Caller) : State :=
+  match r.out with
+  | .panic =>
+      -- the panic unwinds through the call future; its `TrialGuard` gives the slot back
+      let s := emit s [.innerDone r.c r.k .panic, .result r.c .panic]
+      { s with circ := releaseTrial s.circ r.ep }
+  | o =>
+      let own := decide (r.ep = some s.circ.episode ∧ s.circ.st = .halfOpen)
+      let rc := record cfg s.circ (classify cfg o r.tag) (s.now - r.start) s.now own
+      emit { s with circ := rc.1 } ([.innerDone r.c r.k o] ++ rc.2 ++ [.result r.c (resOf r.k o)])
 
-def pollFresh (cfg : Cfg) (s : State) (f : Fresh) : State :=
-  let s := { s with fresh := s.fresh.filter (·.c != f.c) }
-  let (circ, ok, evs) := tryAcquire cfg s.circ s.now
-  let s := emit { s with circ := circ } evs
-  if ok then
-    let ep := if circ.st = .halfOpen then some circ.episode else none
+/-- the inner future of running caller `c` is polled -/
+def pollRunning (cfg : Cfg) (s : State) (c : Nat) : State :=
+  match findRunning s.running c with
+  | some r =>
+      if s.now ≥ r.doneAt ∧ r.out ≠ .never then
+        complete cfg { s with running := s.running.eraseP (·.c == c) } r
+      else s
+  | none => s
+
+/-- first poll, part one: the critical section `try_acquire`; if admitted the inner service is
+called (`inner_call`), otherwise the caller is answered at once -/
+def admitStep (cfg : Cfg) (s : State) (f : Fresh) : State × Bool :=
+  let s := { s with fresh := s.fresh.eraseP (·.c == f.c) }
+  let acq := tryAcquire cfg s.circ s.now
+  let s := emit { s with circ := acq.1 } acq.2.2
+  if acq.2.1 then
+    let ep := if acq.1.st = .halfOpen then some acq.1.episode else none
     let r : Caller := { c := f.c, k := s.serial, start := s.now, doneAt := s.now + f.sc.lat, out := f.sc.out,
                         tag := f.tag, ep := ep }
-    let s := emit { s with running := s.running ++ [r], serial := s.serial + 1 } [.innerCall f.c s.serial]
-    pollRunning cfg s r
-  else if cfg.fallback then emit s [.result f.c (.fallback f.c)]
-  else emit s [.result f.c .openCircuit]
+    (emit { s with running := s.running ++ [r], serial := s.serial + 1 } [.innerCall f.c s.serial], true)
+  else if cfg.fallback then (emit s [.result f.c (.fallback f.c)], false)
+  else (emit s [.result f.c .openCircuit], false)
 
-def dropRunning (s : State) (r : Caller) : State :=
-  let s := emit { s with running := s.running.filter (·.c != r.c) } [.innerDrop r.c r.k]
+/-- first poll: admission, then the inner future is polled in the same step -/
+def pollFresh (cfg : Cfg) (s : State) (f : Fresh) : State :=
+  let r := admitStep cfg s f
+  if r.2 then pollRunning cfg r.1 f.c else r.1
+
+def dropRunning (s : State) (c : Nat) (r : Caller) : State :=
+  let s := emit { s with running := s.running.eraseP (·.c == c) } [.innerDrop r.c r.k]
   { s with circ := releaseTrial s.circ r.ep }
 
 def viewsString (cfg : Cfg) (c : Circuit) : String :=
@@ -294,25 +307,23 @@ def stepS (cfg : Cfg) (s : State) (op : Op) : State :=
       match findFresh s.fresh c with
       | some f => pollFresh cfg s f
       | none =>
-        match findRunning s.running c with
-        | some r => pollRunning cfg s r
-        | none => s
+        pollRunning cfg s c
   | .drop c =>
       match findFresh s.fresh c with
-      | some _ => { s with fresh := s.fresh.filter (·.c != c) }
+      | some _ => { s with fresh := s.fresh.eraseP (·.c == c) }
       | none =>
         match findRunning s.running c with
-        | some r => dropRunning s r
+        | some r => dropRunning s c r
         | none => s
   | .forceOpen =>
-      let (circ, evs) := transitionTo s.circ .opened s.now
-      emit { s with circ := circ } ([.manual "force_open"] ++ evs)
+      let tr := transitionTo s.circ .opened s.now
+      emit { s with circ := tr.1 } ([.manual "force_open"] ++ tr.2)
   | .forceClosed =>
-      let (circ, evs) := transitionTo s.circ .closed s.now
-      emit { s with circ := circ } ([.manual "force_closed"] ++ evs)
+      let tr := transitionTo s.circ .closed s.now
+      emit { s with circ := tr.1 } ([.manual "force_closed"] ++ tr.2)
   | .reset =>
-      let (circ, evs) := reset s.circ s.now
-      emit { s with circ := circ } ([.manual "reset"] ++ evs)
+      let tr := reset s.circ s.now
+      emit { s with circ := tr.1 } ([.manual "reset"] ++ tr.2)
   | .views => emit s [.views (viewsString cfg s.circ)]
 
 def init : State := {}
@@ -356,7 +367,7 @@ def machine : Machine where
   init kv := (parseCfg kv, init)
   step := fun (cfg, s) ws =>
     match parseOp ws with
-    | some op => let s' := stepS cfg s op; ((cfg, s'), (s'.log.drop s.log.length).map CEv.toEv)
+    | some op => let s' := stepS cfg s op; ((cfg, s'), (s'.log.drop s.log.length).map (fun p => p.2.toEv))
     | none => ((cfg, s), [])
   now := fun (_, s) => s.now
 
